@@ -77,8 +77,10 @@ def cases(draw, convs=S.ALL_CONVS, unmarked=False):
                                                    allow_bowtie=False))}
     names = DEPTH_NAMES.get(conv, GENERIC_DEPTHS)
     n_depths = 1 if unmarked else draw(st.integers(1, 2))
-    spec["depths"] = [draw(depth_coordinate(nm, dm)) for nm, dm in names[:n_depths]]
+    spec["depths"] = [draw(depth_coordinate(nm, dm, with_bounds=draw(st.booleans()))) for nm, dm in names[:n_depths]]
     for dc in spec["depths"]:
+        if dc.get("bounds") is not None:
+            dc["bounds_as"] = draw(st.sampled_from(["var", "coord"]))
         if dc["name"] == dc["dim"]:
             dc["as"] = "coord"
     if conv not in DEPTH_NAMES and not unmarked and draw(st.integers(0, 3)) == 0:
@@ -163,6 +165,7 @@ def cases(draw, convs=S.ALL_CONVS, unmarked=False):
     route = draw(st.sampled_from(["function", "accessor", "accessor", "accessor"] if unmarked else
                                  ["function", "accessor", "accessor"])) if with_time else "function"
     return {"spec": spec, "route": route,
+            "scalar_time": draw(st.sampled_from([0, 0, 0, 1, 2, 3])) if with_time else 0,
             "names_as": draw(st.sampled_from(["list", "list", "tuple", "iterator", "generator", "data_arrays"]))}
 
 
@@ -173,6 +176,13 @@ def check_case(case, ctx):
     with warnings.catch_warnings():
         warnings.simplefilter("ignore")
         ds = specs.build(spec)
+        picked_time = None
+        if case.get("scalar_time") and spec.get("time") and spec["conv"] != "shoc_simple":
+            # one time step picked beforehand (ds.isel(time=k)): the time coordinate is a scalar
+            # and the variables have no time dimension any more
+            tdim = spec["time"]["dim"]
+            picked_time = case["scalar_time"] % specs.dim_sizes(spec)[tdim]
+            ds = ds.isel({tdim: picked_time})
         conv = specs.bind_convention(spec, ds)
         before_polygons = list(conv.polygons)
         depth_names = [dc["name"] for dc in spec["depths"]]
@@ -201,6 +211,10 @@ def check_case(case, ctx):
         ctx.check(name in out.variables, "C12.variables_kept",
                   lambda: f"{what}: variable {name} is missing from the result")
         names = specs.var_dim_names(spec, var)
+        fixed = {}
+        if picked_time is not None and spec["time"]["dim"] in names:
+            fixed = {spec["time"]["dim"]: picked_time}
+            names = [d for d in names if d not in fixed]
         got = out[name]
         if var.get("floor") is None:
             ctx.check(list(got.dims) == names and got.shape == ds[name].shape
@@ -224,6 +238,7 @@ def check_case(case, ctx):
         values = got.transpose(*rest).values
         for idx in itertools.product(*(range(sizes[d]) for d in rest)):
             idx_by = dict(zip(rest, idx))
+            idx_by.update(fixed)
             want = math.nan
             for level in reversed(order):          # deepest first
                 idx_by[zdim] = level
@@ -260,6 +275,8 @@ def check_case(case, ctx):
 
     ctx.label("conv:" + spec["conv"])
     ctx.label("route:" + case["route"])
+    if picked_time is not None:
+        ctx.label("one_time_step_picked_beforehand")
     rich = False
     for dc in spec["depths"]:
         ctx.label(f"positive:{dc['positive']}")
